@@ -396,7 +396,7 @@ def _balanced(text, open_pos):
 
 
 def rule_refcell_scoped(text, ctx):
-    """R28: RefCell erasure for a function that holds a named guard `let G = &[mut] self.states[I].borrow[_mut]();` while it borrows
+    """R28: RefCell erasure for a function that holds a named guard `let G = [&[mut]] self.states[I].borrow[_mut]();` while it borrows
     other cells of the same vector.
       * `&self` -> `&mut self` when the function contains a `borrow_mut()` (the erased code mutates through the receiver);
       * the guard binding is dropped and every `G.field` in its scope becomes the place `self.states[I].field` it derefs to;
@@ -413,13 +413,15 @@ def rule_refcell_scoped(text, ctx):
             text = t2
     n_snap = 0
     while True:
-        m = re.search(r'let (\w+) = &(mut )?self\.states\[', text)
+        m = None
+        for cand in re.finditer(r'let (\w+) = &?(mut )?self\.states\[', text):
+            close = _balanced(text, cand.end() - 1)
+            m2 = re.match(r'\s*\.borrow(_mut)?\(\);', text[close + 1:])
+            if m2:          # a guard bound to a name (a field read `.borrow().f;` is a statement-local temporary)
+                m = cand
+                break
         if not m:
             return text
-        close = _balanced(text, m.end() - 1)
-        m2 = re.match(r'\s*\.borrow(_mut)?\(\);', text[close + 1:])
-        if not m2:
-            raise ExtractError('R28: guard binding of an unexpected shape: ' + text[m.start():close + 40])
         g = m.group(1)
         idx = text[m.end():close].strip()
         excl = bool(m2.group(1))
@@ -1018,7 +1020,14 @@ def apply_fn(text, spec, ctx, assoc_types=None, canary=False):
     for n, gtext in spec.loopbodies.items():
         if n < 1 or n > len(loops):
             raise ExtractError('fn %s: loopbody %d requested, function has %d loops' % (spec.name, n, len(loops)))
-        ins.append((loops[n - 1][1] + 1, HINT_BEGIN + '\n' + gtext + '\n' + HINT_END))
+        at = loops[n - 1][1] + 1
+        # after the binder statements R5 puts at the start of a `for` body (`let c = *verif_refN.0;`): the hook may name them
+        while True:
+            mb = re.match(r'\s*let \w+ = \*verif_ref\d+(\.\d+)?;', text[at:])
+            if not mb:
+                break
+            at += mb.end()
+        ins.append((at, HINT_BEGIN + '\n' + gtext + '\n' + HINT_END))
     if spec.loopends:
         ltoks = L.code_toks(text)
         for n, gtext in spec.loopends.items():
